@@ -127,8 +127,17 @@ def block(repo: Repo) -> List[Ob]:
             # combine(*chain(A, B, *G)): the chained pieces are judged one by one; a starred piece `*G` inside chain() is the chain over the
             # elements of G (`members = (p.state_objs for p in SELECTED)`)
             flat_args = []
+            from ..model import single_defs as _sdefs
+            _d = _sdefs(fn)
             for a in n.args:
                 inner0 = a.value if isinstance(a, ast.Starred) else a
+                # `all_states = list(chain(states, cohabitants))` … combine(*all_states): the once-bound local is read through
+                if isinstance(inner0, ast.Name) and inner0.id in _d and inner0.id not in params:
+                    v0 = _d[inner0.id]
+                    if isinstance(v0, ast.Call) and isinstance(v0.func, ast.Name) and v0.func.id in ("list", "tuple") and len(v0.args) == 1:
+                        v0 = v0.args[0]
+                    if isinstance(v0, ast.Call) and (dotted_name(v0.func) or "").split(".")[-1] == "chain" and not (dotted_name(v0.func) or "").endswith("from_iterable") and len(v0.args) > 1:
+                        inner0 = v0
                 if isinstance(inner0, ast.Call) and (dotted_name(inner0.func) or "").split(".")[-1] == "chain" and not inner0.keywords and not (dotted_name(inner0.func) or "").endswith("from_iterable") \
                         and len(inner0.args) > 1:
                     for piece in inner0.args:
